@@ -240,7 +240,9 @@ theorem numBody_rest {neg : Bool} {s t : List Nat} {v : Json} {r : List Nat}
           · simp only [Res.ok.injEq, Prod.mk.injEq] at h
             right
             rw [hsm]; simp only; rw [hex]; exact h.2.symm
-          · cases h
+          · simp only [Res.ok.injEq, Prod.mk.injEq] at h
+            right
+            rw [hsm]; simp only; rw [hex]; exact h.2.symm
 
 theorem numBody_suffix {neg : Bool} {s t : List Nat} {v : Json} {r : List Nat}
     (ht : t <:+ s) (h : numBody neg s t = .ok (v, r)) : r <:+ s := by
@@ -300,6 +302,7 @@ theorem parseNumber_ext {s : List Nat} {v : Json} {d : Nat} {x : List Nat}
 /-- values whose parse does not look at what follows them -/
 def closed : Json → Bool
   | .number _ _ => false
+  | .numberX _ => false
   | _ => true
 
 /-- both texts start with the same stop character -/
@@ -371,7 +374,7 @@ theorem parseScalar_ext {s : List Nat} {v : Json} {r : List Nat} (h : parseScala
                     · cases hb
                     · split at hb
                       · simp only [Res.ok.injEq, Prod.mk.injEq] at hb; rw [← hb.1]; rfl
-                      · cases hb
+                      · simp only [Res.ok.injEq, Prod.mk.injEq] at hb; rw [← hb.1]; rfl
             split at h1
             · exact hb h1
             · split at h1 <;> exact hb h1
